@@ -21,8 +21,9 @@ LINETERM = "\r\n"
 
 
 class _Writer(object):
-    def __init__(self, stream):
+    def __init__(self, stream, lineterminator=LINETERM):
         self.stream = stream
+        self.lineterminator = lineterminator
 
     def writerow(self, row):
         fields = list(row)
@@ -33,7 +34,8 @@ class _Writer(object):
             quoted = False
             body = ""
             for ch in field:
-                if ch == DELIM or ch == QUOTE or ch == "\r" or ch == "\n":
+                # _csv.c join_append_data: delimiter, quotechar and the characters of the line terminator force quoting
+                if ch == DELIM or ch == QUOTE or any(ch == lt for lt in self.lineterminator):
                     if ch == QUOTE:
                         body = body + QUOTE
                     quoted = True
@@ -46,15 +48,16 @@ class _Writer(object):
                 out = out + QUOTE + body + QUOTE
             else:
                 out = out + body
-        out = out + LINETERM
+        out = out + self.lineterminator
         self.stream.write(out)
         return len(out)
 
 
 def writer(stream, dialect="excel", **kw):
-    if dialect != "excel" or kw:
-        raise NotImplementedError("csvmodel covers only the excel dialect")
-    return _Writer(stream)
+    lineterminator = kw.pop("lineterminator", LINETERM)
+    if dialect != "excel" or kw or not isinstance(lineterminator, str):
+        raise NotImplementedError("csvmodel covers only the excel dialect (plus a lineterminator override)")
+    return _Writer(stream, lineterminator)
 
 
 START_RECORD, START_FIELD, IN_FIELD, IN_QUOTED_FIELD, QUOTE_IN_QUOTED_FIELD, EAT_CRNL = range(6)
